@@ -193,6 +193,9 @@ void Search::go()
     }
     iter_search();
 
+    // stopped or timed out before the first iteration finished: still answer with a legal move
+    if (_best_move == NO_MOVE && !_root_moves.empty()) _best_move = _root_moves[0];
+
     ASSERT(_best_move != NO_MOVE);
     VERIF_POINT(GO_BESTMOVE, this, nullptr, nullptr);
     sync_cout << "bestmove " << _position.uci(_best_move) << sync_endl;
